@@ -146,6 +146,16 @@ def check_spec(spec, case, acc):
     root = witness.build(spec)
     probs, summ = diff_oracle(root, case)
     n_trees = 1
+    if e3.size(spec) <= 16 and len(case.get("mutations") or []) <= 1:
+        # distinct node objects that share one id (two loads of one JSON text give that), children attached by index:
+        # whole-tree validation is about the nodes of the tree, not about their ids or how they were attached
+        core.reset_store()
+        root2 = witness.build(spec, same_id="dup", insert=True)
+        p2, summ2 = diff_oracle(root2, dict(case, variant="all nodes share one id; children inserted by index"))
+        probs += p2
+        n_trees += 1
+        if summ2 != summ and not p2 and not probs:
+            probs.append(problem("tree_result_depends_on_ids", case, expected=repr(summ)[:300], observed=repr(summ2)[:300]))
     if acc is not None:
         acc.outcome("valid" if summ[0] is None and (len(summ) < 2 or not summ[1]) else "invalid")
     for mp in meta_paths(spec):
